@@ -17,6 +17,14 @@ RULE = ("mesh.hist1 / mesh.hist2 cases = one mesh + a history of operations, the
         "to the nodes, then every cross-section in both directions, var_as_matrix, assign; (c) f64: interpolation at every node, at mid-cells, "
         "at interior points >= 1e-6 from the nodes (and a few inside the snapping window / outside the grid, tie only), trapezium of "
         "integer and linear data, 2-D trapezium / square_trapezium of integer and bilinear data, output + read round trips at precisions 0..9; "
+        "(d) added by the special-values audit (findings/special-values-specB/C19-table.md): interpolation INSIDE the 1e-7 snapping window on both "
+        "sides of an interior node, right of the first and left of the last node (2^-24..2^-40 away; the oracle accepts the line of either cell "
+        "sharing the node and nothing else), mid-cells of the first / last cell; file round trips of values with 7..17 significant digits (large "
+        "integer data, nodes shifted by 2^20..2^30); `fileinto` (search-only): output, then read() into a mesh that already HOLDS non-zero data on "
+        "fewer / as many / more nodes (file data with zeros, equal neighbours, alternating signs), then the index path, the guarded path, coord and "
+        "the quadrature of every variable on the mesh read, and the writer again; `paths1` / `paths2`: every ordered pair of write paths on one node "
+        "followed by every read path at first / last / interior (corner / edge / interior) nodes of 2 x N, N x 2, wide and tall grids, first and last "
+        "variable index (10 of the 25 2-D pairs per quick run, rotating with the seed; all in the thorough tier); "
         "distinct = distinct executor line; non-trivial = at least 2 nodes per direction and at least one write")
 TRUSTED = ["Coq 8.16.1 kernel + vm_compute (primitive floats: bit-exact IEEE-754)",
            "Rust executor /verif/harness (Rat = i128 rationals; f64 nodes of Mesh2D carried as exact dyadic rationals in the exact tier)",
@@ -44,7 +52,9 @@ MANIFEST = dict(
           "level: output writes nvars+1 tokens per node line (2-D: x y vars, blank line per y); read(output(m)) = m for any receiving mesh "
           "given parse(fmt x) = x; the reader on an arbitrary complete token stream; an unparsable token never yields a mesh. The same "
           "definitions run on primitive floats / Qc against the implementation on every check (operation histories with state read-backs, "
-          "bit-identical expected and observed), and a dictionary-of-nodes reference in exact rational arithmetic searches for a failing input. "
+          "bit-identical expected and observed), and a dictionary-of-nodes reference in exact rational arithmetic searches for a failing input "
+          "(also inside the snapping window on both sides of a node, on values with many digits, after read() into a mesh that already holds data, "
+          "and after every ordered pair of write paths at corner / edge / interior nodes). "
           "Five Appendix-D variants (i*nx+j, swapped cross-section, weight 1/2, nvars-token reader, dropped right-node clause) are refuted "
           "against the theorems' conclusions in Legacy/meshRefuted.v."),
     note=("PARTIAL: floating-point accuracy is not proved (interpolation / quadrature theorems are over R; the f64 instance is tied "
@@ -130,7 +140,8 @@ def _tie(family, n_items, force):
 def mk1(elt, nvars, nodes, ops, family, tol=1e-12, force=False):
     nt = len(nodes) >= 2 and any(o[0] in WRITES for o in ops)
     n_items = _cost(elt, ref_hist1(elt, nvars, copy.deepcopy(nodes), copy.deepcopy(ops)))
-    tied = _tie(family, n_items, force)
+    # ops without a model constructor (OPS1[..][0] is None) are judged by the reference alone
+    tied = all(OPS1[o[0]][0] for o in ops) and _tie(family, n_items, force)
     term = hist1_term(elt, nvars, nodes, ops) if tied else None
     return Case(elt, hist1_line(elt, nvars, nodes, ops), term,
                 meta={"kind": "hist1", "nvars": nvars, "nodes": nodes, "ops": ops}, family=family + ("" if tied else "/search-only"), nontrivial=nt, tol=tol)
@@ -219,6 +230,15 @@ def gen_hist1(rng, tier, cases):
         if h % 5 == 0:   # tie only: inside the snapping window, outside the grid
             qs += [("interp", nodes[g.below(n)] + 2.0 ** -26), ("interp", nodes[0] - 0.5), ("interp", nodes[-1] + 2.0 ** -25)]
         qs = g.shuffle(qs)[:8] + [("interp", nodes[-1]), ("interp", nodes[0])]
+        if h % 5 in (1, 3):
+            # INSIDE the 1e-7 snapping window, on BOTH sides of a node and inside the grid (left of an interior node, right of it, right
+            # of the first node, left of the last one) at distances 2^-24 .. 2^-40: the property allows the line of either cell that
+            # shares the node there, and nothing else (meshlib.interp_expected)
+            k = g.range(1, n - 2) if n >= 3 else 0
+            for node, sides in ((k, (-1, 1) if n >= 3 else (1,)), (0, (1,)), (n - 1, (-1,))):
+                for sg in sides:
+                    qs.append(("interp", nodes[node] + sg * 2.0 ** -g.choice([24, 25, 26, 30, 40])))
+            qs += [("interp", 0.5 * (nodes[0] + nodes[1])), ("interp", 0.5 * (nodes[-2] + nodes[-1]))]   # mid-cell of the first / last cell
         ops += qs
         ops += [("trap", v) for v in range(nvars)]
         cases.append(mk1('f64', nvars, nodes, ops, "interp-trap1" + ("-linear" if h % 3 == 0 else "")))
@@ -227,7 +247,14 @@ def gen_hist1(rng, tier, cases):
     for h in range(N // 2):
         n = g.range(2, 12); nvars = g.range(1, 4)
         nodes = grid(g, 'f64', n)
-        ops = [("set", k, ivec(g, 'f64', nvars)) for k in range(n)]
+        if h % 3 == 1:
+            # values with MANY significant digits (more than a float32 / a 9-digit field holds): large integer data, and every
+            # node shifted by a large dyadic offset (the spacing stays >= 1/512)
+            off = g.choice([2.0 ** 20, -2.0 ** 20, 3.0 * 2.0 ** 22, 2.0 ** 30])
+            if h % 2: nodes = [x + off for x in nodes]
+            ops = [("set", k, [big_int(g) for _ in range(nvars)]) for k in range(n)]
+        else:
+            ops = [("set", k, ivec(g, 'f64', nvars)) for k in range(n)]
         prec = g.range(0, 9)
         if h % 4 == 3:
             ops.append(("reread", prec))
@@ -236,6 +263,78 @@ def gen_hist1(rng, tier, cases):
             n2 = g.choice([n, 0, 1, n + 2, g.range(0, 12)])
             ops.append(("file", prec, nv2, grid(g, 'f64', n2)))
         cases.append(mk1('f64', nvars, nodes, ops, "file1"))
+
+def big_int(rng):
+    """integer-valued, exactly representable, 7..13 significant decimal digits (or 0)"""
+    if rng.chance(1, 8): return 0.0
+    v = rng.choice([10 ** 6, 2 ** 24, 10 ** 9, 2 ** 31, 2 ** 40]) + rng.range(1, 99999)
+    return float(-v if rng.chance(1, 2) else v)
+
+def gen_fileinto(rng, tier, cases):
+    """output, then read() into a mesh that already HOLDS non-zero data: fewer / as many / more nodes than the file, every stored value
+    different from the file's (two-digit values against the file's one-digit ones, so a value that survives the read is visible at every
+    precision), file data with zeros, equal neighbours and sign changes; then every read path and the quadrature on the mesh read"""
+    N = 40 if tier == "quick" else 250
+    g = rng.fork("fileinto")
+    for h in range(N):
+        n = g.range(2, 12); nvars = g.range(1, 4)
+        nodes = grid(g, 'f64', n)
+        rows = [ivec(g, 'f64', nvars) for _ in range(n)]
+        rows[g.below(n)][g.below(nvars)] = 0.0                     # a stored zero
+        if h % 4 == 1: rows = [[float((-1) ** k * (1 + k % 3))] * nvars for k in range(n)]      # alternating sign
+        if h % 4 == 2: rows = [[float(g.range(-9, 9))] * nvars] * n                             # all nodes equal
+        ops = [("set", k, list(rows[k])) for k in range(n)]
+        n2 = [n, n, max(n - g.range(1, 3), 0), n + g.range(1, 3), 1, 0][h % 6]
+        nodes2 = grid(g, 'f64', n2)
+        data2 = [float(g.range(11, 99) * g.choice([1, -1])) for _ in range(n2 * nvars)]
+        ops.append(("fileinto", g.range(0, 9), nodes2, data2))
+        cases.append(mk1('f64', nvars, nodes, ops, "file1-into"))
+
+def gen_paths(rng, tier, cases):
+    """every ORDERED PAIR of write paths on the same node, then every read path, at the first / last / an interior node (1-D) and at a
+    corner / an edge / an interior node (2-D) of wide, tall, 2 x N and N x 2 grids; every variable index is written and read"""
+    g = rng.fork("paths")
+    # ---- 1-D: writes set / idxset / idxelem; reads get, idx, interp at the node, trap of every variable, dump
+    W1 = ["set", "idxset", "idxelem"]
+    pairs = [(a, b) for a in W1 for b in W1]
+    for h, (wa, wb) in enumerate(pairs):
+        n = [2, 3, 5, 12][h % 4]; nvars = [1, 4, 2, 3][(h // 2) % 4]
+        nodes = grid(g, 'f64', n)
+        ops = fill1(g, 'f64', n, nvars)
+        for node in dict.fromkeys([0, n - 1, n // 2]):
+            for w in (wa, wb):
+                var = g.choice([0, nvars - 1])                       # first / last variable
+                if w == "idxelem": ops.append((w, node, var, float(g.range(10, 99))))
+                else: ops.append((w, node, [float(g.range(10, 99)) for _ in range(nvars)]))
+            ops += [("get", node), ("idx", node), ("coord", node), ("interp", nodes[node])]
+        ops += [("trap", v) for v in range(nvars)] + [("dump",)]
+        cases.append(mk1('f64', nvars, nodes, ops, "paths1"))
+    # ---- 2-D: writes set / idxset / idxelem / assign / apply; reads get, idx, both cross-sections through the node, var_as_matrix of
+    # every variable, dump
+    W2 = ["set", "idxset", "idxelem", "assign", "apply"]
+    pairs = [(a, b) for a in W2 for b in W2]
+    if tier == "quick": pairs = g.shuffle(pairs)[:10]
+    shapes = [(2, 5), (5, 2), (3, 4), (4, 3), (2, 2), (3, 3), (2, 7), (6, 2)]
+    for h, (wa, wb) in enumerate(pairs):
+        nx, ny = shapes[h % len(shapes)]; nvars = [1, 4, 2, 3][h % 4]
+        elt = 'rat' if h % 3 else 'f64'
+        xs, ys = grid(g, elt, nx), grid(g, elt, ny)
+        f = ("bin", "+", ("bin", "*", ("v", 0), ("lit", cv(elt, 1000))), ("v", 1))
+        ops = [("apply", f, v) for v in range(nvars)]
+        corner = [(0, 0), (0, ny - 1), (nx - 1, 0), (nx - 1, ny - 1)][h % 4]
+        edge = (nx - 1, ny // 2) if h % 2 else (nx // 2, 0)
+        inner = (nx // 2, ny // 2)
+        for (i, j) in dict.fromkeys([corner, edge, inner]):
+            for w in (wa, wb):
+                var = g.choice([0, nvars - 1])
+                val = cv(elt, g.range(10, 99))
+                if w == "set" or w == "idxset": ops.append((w, i, j, [cv(elt, g.range(10, 99)) for _ in range(nvars)]))
+                elif w == "idxelem": ops.append((w, i, j, var, val))
+                elif w == "assign": ops.append((w, val))
+                else: ops.append((w, rand_ast(g, elt), var))
+            ops += [("get", i, j), ("idx", i, j), ("coord", i, j), ("xsec", i), ("ysec", j)] + [("varmat", v) for v in range(nvars)]
+        ops.append(("dump",))
+        cases.append(mk2(elt, nvars, xs, ys, ops, "paths2"))
 
 def rand_ast(rng, elt, depth=2):
     k = rng.below(6) if depth > 0 else rng.below(2)
@@ -331,9 +430,11 @@ def generate(rng, tier):
     cases = []
     per = 1 if tier == "quick" else 5
     for f, b in (("hist1-rat", 30000), ("hist1-f64", 12000), ("interp-trap1", 30000), ("interp-trap1-linear", 15000), ("file1", 18000),
-                 ("hist2-rat", 45000), ("hist2-f64", 18000), ("index-map", 30000), ("quad2", 14000), ("quad2-bilinear", 14000)):
+                 ("hist2-rat", 45000), ("hist2-f64", 18000), ("index-map", 30000), ("quad2", 14000), ("quad2-bilinear", 14000), ("paths1", 6000), ("paths2", 12000)):
         BUDGET[f] = per * b
     gen_hist1(rng, tier, cases)
+    gen_fileinto(rng, tier, cases)
+    gen_paths(rng, tier, cases)
     gen_hist2(rng, tier, cases)
     return rng.fork("order").shuffle(cases)      # the model side is sharded in order: spread the heavy families
 
